@@ -25,10 +25,26 @@ impl<const N: usize> Read for SrcLong<N> {
         kani::assume(n <= N - self.pos);
         #[cfg(not(kani))]
         assert!(n <= N - self.pos, "SrcLong exhausted (outside the modelled input space)");
-        let mut i = 0;
-        while i < n {
-            out[i] = self.buf[self.pos + i];
-            i += 1;
+        if n <= 4 {
+            // loop-free for scalar-sized reads, so that harnesses over recursive decoders can use a small unwind bound
+            if n > 0 {
+                out[0] = self.buf[self.pos];
+            }
+            if n > 1 {
+                out[1] = self.buf[self.pos + 1];
+            }
+            if n > 2 {
+                out[2] = self.buf[self.pos + 2];
+            }
+            if n > 3 {
+                out[3] = self.buf[self.pos + 3];
+            }
+        } else {
+            let mut i = 0;
+            while i < n {
+                out[i] = self.buf[self.pos + i];
+                i += 1;
+            }
         }
         self.pos += n;
         Ok(())
